@@ -259,7 +259,7 @@ func main() {
 	var samples []interface{}
 	var funcs []string
 	fset := map[string]bool{}
-	q := map[string]int{"sat": 0, "unsat": 0, "unknown": 0, "errors": 0, "rechecked_by_second_solver": 0}
+	q := map[string]int{"sat": 0, "unsat": 0, "unknown": 0, "errors": 0, "rechecked_by_second_solver": 0, "second_solver_no_answer": 0}
 	solverT := 0.0
 	perH := map[string]interface{}{}
 	exhaustive := true
@@ -277,6 +277,7 @@ func main() {
 		q["unknown"] += r.Stats.Unknown
 		q["errors"] += r.Stats.Errors
 		q["rechecked_by_second_solver"] += r.CrossChecked
+		q["second_solver_no_answer"] += r.CrossUnknown
 		solverT += r.Stats.Time.Seconds()
 		modes[hr.h.mode.String()] += r.Obligations
 		for _, s := range r.Samples {
